@@ -5,7 +5,7 @@
    unregisterConnection, players.add / remove, Register / Unregister).
 
    One map M (a set of keys) protected by a sync.RWMutex.  A reader lists it, a
-   writer adds or deletes one key.  One action per segment between two gate points:
+   writer adds or deletes one key, or tries to add a present one and is refused.  One action per segment between two gate points:
 
      reader  start        RBegin   call; RLock; [copy the map header; RUnlock]
              list.*.iter  RVisit   produce the next element (parks at list.*.step)
@@ -40,7 +40,10 @@ Threads == Readers \cup Writers
 vars == <<M, m0, wprog, pc, wl, rl, visited, hist, h>>
 View == <<M, m0, wprog, pc, wl, rl, visited, hist>>
 
-Ops == [op : {"add", "del"}, k : Keys]
+\* "dup": an attempt to add an element that is already there and is refused (a duplicate
+\* login that is rejected and torn down, Register of an existing server name, add of a
+\* player already on the list): takes the same locks, leaves the collection as it is
+Ops == [op : {"add", "del", "dup"}, k : Keys]
 
 Init == /\ M \in {s \in SUBSET Keys : Cardinality(s) <= MaxInit}
         /\ m0 = M
@@ -89,7 +92,8 @@ WLock(w) == /\ pc[w] = "enter"
             /\ UNCHANGED <<M, m0, wprog, rl, visited, hist>>
 
 WWrite(w) == /\ pc[w] = "locked"
-             /\ LET m == IF wprog[w].op = "add" THEN M \cup {wprog[w].k} ELSE M \ {wprog[w].k} IN
+             /\ LET m == IF wprog[w].op = "add" THEN M \cup {wprog[w].k}
+                         ELSE IF wprog[w].op = "del" THEN M \ {wprog[w].k} ELSE M IN
                   M' = m /\ Note(m)
              /\ wl' = IF Locked THEN "none" ELSE wl
              /\ Go(w, "done")
